@@ -230,3 +230,9 @@ func TestVerifC13Redirect(t *testing.T) {
 }
 
 var _ = http.StatusOK
+
+// FuzzVerifC13Redirect: coverage-guided search (go test -fuzz) over the entropy
+// stream of the generator of TestVerifC13Redirect, with the same oracle.
+func FuzzVerifC13Redirect(f *testing.F) {
+	vRunFuzz(f, "native coverage-guided fuzzing of the entropy stream of the TestVerifC13Redirect generator (rapid.MakeFuzz); same case structure, oracle, non-trivial rule and distinctness rule as TestVerifC13Redirect", c13Gen, c13Check)
+}
